@@ -371,6 +371,10 @@ class Topology(ABC):
         # make sure name is unique within the topology
         if name in self._list_links().keys():
             raise TopologyException('Link names must be unique within topology.')
+        # a link joins interfaces: the graph layer only looks whether the ids exist
+        for i in interfaces or ():
+            if not isinstance(i, Interface):
+                raise TopologyException(f'Link {name} can only connect interfaces, not {i}')
         link = Link(name=name, node_id=node_id, ltype=ltype, interfaces=interfaces,
                     etype=ElementType.NEW, topo=self, technology=technology, **kwargs)
         return link
